@@ -18,8 +18,30 @@ F64 = torch.float64
 
 
 # ---------------------------------------------------------------- specs
-def mk_hp(spec):
-    """number | ['cyc', [v0, v1, ...]] (callable: step -> v[step % len])."""
+class ExtClock:
+    """External state a hyper-parameter callable may track (e.g. the
+    optimizer's learning rate): the harness iteration, advanced by the
+    harness at the start of every training iteration."""
+
+    def __init__(self):
+        self.i = 0
+
+
+class ExtHP:
+    """callable(step) that ignores the K-FAC step and reads the clock."""
+
+    def __init__(self, clock, vals):
+        self.clock, self.vals = clock, list(vals)
+
+    def __call__(self, step):
+        return self.vals[self.clock.i % len(self.vals)]
+
+
+def mk_hp(spec, clock=None):
+    """number | ['cyc', [v0, v1, ...]] (callable: step -> v[step % len]) |
+    ['ext', [...]] (callable tracking external state, see ExtHP)."""
+    if isinstance(spec, (list, tuple)) and spec and spec[0] == 'ext':
+        return ExtHP(clock if clock is not None else ExtClock(), spec[1])
     if isinstance(spec, (list, tuple)) and spec and spec[0] == 'cyc':
         vals = list(spec[1])
         return lambda step: vals[step % len(vals)]
@@ -33,13 +55,13 @@ HP_NAMES = ('factor_update_steps', 'inv_update_steps', 'damping',
             'factor_decay', 'kl_clip', 'lr')
 
 
-def kfac_kwargs(cfg):
+def kfac_kwargs(cfg, clock=None):
     from kfac.enums import DistributedStrategy
 
     kw = dict(cfg.get('kfac', {}))
     for n in HP_NAMES:
         if n in kw:
-            kw[n] = mk_hp(kw[n])
+            kw[n] = mk_hp(kw[n], clock)
     for n in ('factor_dtype', 'inv_dtype'):
         if isinstance(kw.get(n), str):
             kw[n] = R.DT[kw[n]]
@@ -95,6 +117,7 @@ class RealRun:
         self.it = 0  # harness iteration counter (train ops)
         self.scale_spec = cfg.get('scale')
         self.scaler = Scaler(self.scale_spec)
+        self.clock = ExtClock()
         self.model = R.build_model(cfg['model'], self.dtype, self.seed)
         self.pre = self._mk_pre(self.model)
         self.sched = None
@@ -119,7 +142,7 @@ class RealRun:
     def _mk_pre(self, model, perturb=False):
         import kfac
 
-        kw = kfac_kwargs(self.cfg)
+        kw = kfac_kwargs(self.cfg, self.clock)
         if perturb:
             # a fresh object built with OTHER constant hyper-parameters, so
             # that restoring them from the state is observable
@@ -240,6 +263,7 @@ class RealRun:
     def train(self, ev):
         cfg = self.cfg
         scale = self._scale() if self.scale_spec is not None else None
+        self.clock.i = self.it  # external state changes before the step
         self.model.zero_grad()
         for mb in range(self.acc):
             # as_ranks: single process emulating N ranks as micro-batches
@@ -438,8 +462,10 @@ class RefRun:
                       and not any(re.search(p, type(m).__name__)
                                   for p in skip)]
 
+        self.clock = ExtClock()
+
         def hpv(nm, default):
-            return mk_hp(k.get(nm, default))
+            return mk_hp(k.get(nm, default), self.clock)
 
         hps = dict(fus=hpv('factor_update_steps', 1),
                    ius=hpv('inv_update_steps', 1),
@@ -463,6 +489,7 @@ class RefRun:
             sc = mk_hp(scale_spec)
             scale = (sc(it) if callable(sc) else sc) \
                 if scale_spec is not None else None
+            self.clock.i = it
             fstep = ref.is_factor_step()
             twin.on = fstep
             twin.clear()
